@@ -1123,7 +1123,7 @@ theorem raising_validator_fails_closed_socks (L : Lib) (v : Validator) (m : Mode
 example : (step L0 (some (.raising [([117], [112, 97, 58, 115, 115])] .any)) .regular (State.init modes0) 0
     (.req false false [⟨pa, cred0⟩])).2 = .deny 407 := by decide +kernel
 example : (Validator.raising [([117], [112])] .any).check L0 [117] [112] = .error () ∧
-    (Validator.raising [([117], [112])] .any).check L0 [117] [113] = .ok true := by decide +kernel
+    (Validator.raising [([117], [112])] .any).check L0 [117] [113] = .ok true := ⟨rfl, rfl⟩
 
 -- non-vacuity: the tunnel phase is reachable (hist0 above), and the decision takes both branches
 example : (finalState L0 (some single0) modes0 (State.init modes0) hist0).phase 0 = .http true := by decide +kernel
